@@ -234,6 +234,10 @@ fn parser_strategy(t: Tier) -> BoxedStrategy<ParserCase> {
     (data, prop_oneof![0usize..10, any::<usize>()], any::<bool>(), any::<u32>()).prop_map(|(data, from, flag, num)| ParserCase { data, from, flag, num }).boxed()
 }
 
+pub fn parser_case_strategy_for_seeds() -> BoxedStrategy<ParserCase> {
+    parser_strategy(Tier::Quick)
+}
+
 // ------------------------------------------------------------------------------------------
 // (b) progressive API with raw values
 
@@ -587,6 +591,7 @@ fn frag_strategy(t: Tier) -> BoxedStrategy<FragRaw> {
 
 pub fn def() -> PropertyDef {
     PropertyDef {
+        fuzz_targets: &["c12_bytes", "c12_api", "c12_frag"],
         id: "C12",
         level: "exploration",
         rule: "built with overflow checks and debug assertions; every call runs under a panic hook on a worker thread with a 10 s deadline (confirmed by a \
